@@ -244,22 +244,34 @@ def confirmed(ctx):
     tr = call_trace(ctx, cname)
     rs = retset(tr)
     ctx.ob("RET", site, "returns only 'drift', 'warning' or None", rs <= {"drift", "warning", None} and {"drift", "warning"} <= rs, str(rs))
-    loops = [(k, v) for k, v in tr.loops.items() if v["func"].qualname == site]
-    if len(loops) != 2:
+    # the vote loop (the one in which tallies are incremented) and the expiry loop (the one in which counters are set back),
+    # in __call__ itself or in helpers it calls
+    def _in(e, lid):
+        return any((p.cond.single_atom() or ("",)) == ("inloop", lid) for p in e.pc)
+    vote_l = [k for k in tr.loops if any(e.aug is not None and _in(e, k) for e in tr.of("local"))]
+    exp_l = [k for k in tr.loops if k not in vote_l and any(_in(e, k) for e in tr.mutations("wait_period_counters"))]
+    # ... or the expiry as a rebuild of the whole list: counters = / counters[:] = [<0 or c> for c in counters]
+    _full = (("item", atom(("slice", T.NONE, T.NONE, T.NONE))),)
+    rebuilt = [e for e in tr.events if e.kind in ("store", "mutate") and e.d.get("attr") == "wait_period_counters"
+               and (e.kind == "store" or (e.how == "setitem" and e.path == _full))
+               and (e.value.single_atom() or ("",))[0] == "comp"]
+    if len(vote_l) != 1 or len(exp_l) + len(rebuilt) != 1:
         raise AnalysisError("ConfirmedElection: expected a vote loop and an expiry loop (unrecognised shape)")
-    (l1, v1), (l2, v2) = loops
+    l1, v1 = vote_l[0], tr.loops[vote_l[0]]
+    l2, v2 = (exp_l[0], tr.loops[exp_l[0]]) if exp_l else (None, None)
     i1 = atom(("idx", l1))
     # the member state and its counter as seen in the vote loop
     in1 = lambda e: any((p.cond.single_atom() or ("",)) == ("inloop", l1) for p in e.pc)
-    cnames = sorted({e.name for e in tr.of("local") if e.aug is not None and len(e.stack) == 1 and in1(e)})
+    cnames = sorted({e.name for e in tr.of("local") if e.aug is not None and in1(e)})
     rets0 = [e for e in tr.returns() if len(e.stack) == 1]
-    early = [e for e in rets0 if [p for p in e.pc if (p.cond.single_atom() or ("",))[0] != "inloop"]]
+    vote_end = max([e.seq for e in tr.of("loopend") if e.lid == l1] or [0])
+    early = [e for e in rets0 if e.seq < vote_end and [p for p in e.pc if (p.cond.single_atom() or ("",))[0] != "inloop"]]
     ctx.ob("ORD", site, "no verdict is returned before the votes are tallied and the waiting periods advanced", not early,
            "a return under %s skips the tally: members still inside their waiting period neither vote nor age in such a call"
            % ("; ".join(q.short(p.cond, 60) for p in early[0].pc) if early else ""), early[0] if early else None)
     drift_name = None
-    if rets0:
-        for conds, leaf in q.ite_leaves(rets0[-1].value):
+    if rets0 and tr.retval is not None:
+        for conds, leaf in q.ite_leaves(tr.retval):
             if leaf == const("drift") and conds:
                 lv = [z for z in T.atoms_of(conds[-1], "loopvar") if z[2].startswith("$")]
                 if len(lv) == 1:
@@ -338,37 +350,61 @@ def confirmed(ctx):
     env = {sa: "something else", ca: 0}
     ok = all(q.holds_under(e, env) is False for e in augs + cm)
     ctx.ob("TAB", site, "an idle member with any other state votes nothing", ok, "")
-    # expiry loop
-    i2 = atom(("idx", l2))
-    ex = [e for e in tr.mutations("wait_period_counters") if any((p.cond.single_atom() or ("",)) == ("inloop", l2) for p in e.pc)]
-    ok = len(ex) == 1 and ex[0].value == const(0) and ex[0].aug is None and ex[0].path == (("item", i2),)
-    if ok:
-        gs = [p.cond for p in ex[0].pc if (p.cond.single_atom() or ("",))[0] != "inloop"]
-        ok = len(gs) == 1
+    # expiry
+    if rebuilt:
+        ex = rebuilt
+        cp = ex[0].value.single_atom()
+        # [ite(<c exceeds wait_time>, 0, c) for c in <the counters>], unfiltered, in order
+        ok = cp[1] == "list" and len(cp[2]) == 1 and len(cp[3]) == 1 and not cp[4] and _root(cp[3][0]) == "wait_period_counters"
         if ok:
-            c = q.is_cmp(gs[0])
-            cnt = list({a for a in T.walk(gs[0]) if a[0] == "sub" and a[2] == i2 and _root(a[1]) == "wait_period_counters"})
-            ok = c is not None and len(cnt) == 1
-            if ok:
-                bad2 = []
+            el = [z for z in T.walk(cp[2][0]) if z[0] == "iter" and z[1] == cp[3][0]]
+            ok = len(set(el)) == 1
+        if ok:
+            bad2 = []
+            try:
                 for cv in range(0, N + 2):
                     for w in range(0, N + 1):
-                        got = bool(q.eval_cell(gs[0], {cnt[0]: cv, ("attr", "wait_time"): w}))
-                        if got != (cv > w):
+                        got = q.eval_cell(cp[2][0], {el[0]: cv, ("attr", "wait_time"): w})
+                        if got != (0 if cv > w else cv):
                             bad2.append((cv, w, got))
-                ok = not bad2
-    ctx.ob("TAB", site, "a counter is set back to 0 exactly when it exceeds wait_time", ok, "", ex[0] if ex else None)
-    ctx.ob("MC", site, "the expiry loop runs over all counters on every path to the return (after the votes)",
-           v2["iter"].single_atom() is not None and v2["iter"].single_atom()[:2] == ("call", "enumerate") and _root(v2["iter"].single_atom()[2][0]) == "wait_period_counters"
-           and not v2["break"] and not [p for p in ex[0].pc[:1] if (p.cond.single_atom() or ("",))[0] != "inloop"] if ex else False, "")
+            except q.Undecided:
+                bad2.append("undecided")
+            ok = not bad2
+        ctx.ob("TAB", site, "a counter is set back to 0 exactly when it exceeds wait_time", ok, "", ex[0])
+        ctx.ob("MC", site, "the expiry runs over all counters on every path to the return (after the votes)",
+               not [p for p in ex[0].pc if (p.cond.single_atom() or ("",))[0] != "inloop"] and ex[0].seq > max(e.seq for e in augs + cm), "", ex[0])
+    else:
+      i2 = atom(("idx", l2))
+      ex = [e for e in tr.mutations("wait_period_counters") if any((p.cond.single_atom() or ("",)) == ("inloop", l2) for p in e.pc)]
+      ok = len(ex) == 1 and ex[0].value == const(0) and ex[0].aug is None and ex[0].path == (("item", i2),)
+      if ok:
+          gs = [p.cond for p in ex[0].pc if (p.cond.single_atom() or ("",))[0] != "inloop"]
+          ok = len(gs) == 1
+          if ok:
+              c = q.is_cmp(gs[0])
+              cnt = list({a for a in T.walk(gs[0]) if a[0] == "sub" and a[2] == i2 and _root(a[1]) == "wait_period_counters"})
+              ok = c is not None and len(cnt) == 1
+              if ok:
+                  bad2 = []
+                  for cv in range(0, N + 2):
+                      for w in range(0, N + 1):
+                          got = bool(q.eval_cell(gs[0], {cnt[0]: cv, ("attr", "wait_time"): w}))
+                          if got != (cv > w):
+                              bad2.append((cv, w, got))
+                  ok = not bad2
+      ctx.ob("TAB", site, "a counter is set back to 0 exactly when it exceeds wait_time", ok, "", ex[0] if ex else None)
+      ctx.ob("MC", site, "the expiry loop runs over all counters on every path to the return (after the votes)",
+             v2["iter"].single_atom() is not None and v2["iter"].single_atom()[:2] == ("call", "enumerate") and _root(v2["iter"].single_atom()[2][0]) == "wait_period_counters"
+             and not v2["break"] and not [p for p in ex[0].pc[:1] if (p.cond.single_atom() or ("",))[0] != "inloop"] if ex else False, "")
     rets = [e for e in tr.returns() if len(e.stack) == 1]
-    ctx.ob("ORD", site, "single return after the expiry loop", len(rets) == 1 and ex and rets[0].seq > ex[0].seq and not rets[0].pc, "")
+    ctx.ob("ORD", site, "the verdict is returned after the expiry, on every path", bool(rets) and bool(ex) and all(r.seq > ex[0].seq for r in rets)
+           and tr.retval is not None, "")
     # verdict chain
     nd = atom(("loopvar", l1, "$" + drift_name))
     nw = atom(("loopvar", l1, "$" + warn_name))
     s_ = A("sensitivity")
     want = T.mk_ite(T.mk_cmp(">=", nd, s_), const("drift"), T.mk_ite(T.mk_cmp(">=", nw + nd, s_), const("warning"), T.NONE))
-    got = rets[0].value if rets else None
+    got = tr.retval if rets else None
     okv = got == want
     if not okv and got is not None:
         # decide by cells
@@ -379,7 +415,7 @@ def confirmed(ctx):
         except q.Undecided:
             okv = False
     ctx.ob("TAB", site, "drift when voters reach sensitivity, warning when voters plus warnings reach it, else None", okv, q.short(got, 160) if got is not None else "")
-    init = [e for e in tr.stores("wait_period_counters")]
+    init = [e for e in tr.stores("wait_period_counters") if e not in rebuilt]
     ok = len(init) == 1 and q.has_guard(init[0], T.mk_cmp("==", A("wait_period_counters"), T.NONE)) and \
         T.same(init[0].value, atom(("list", (const(0),))) * atom(("call", "len", (P("detectors"),), ())))
     ctx.ob("FRM", site, "counters start at 0 for every member, once", ok, q.short(init[0].value, 60) if init else "")
